@@ -9,7 +9,7 @@ from concurrent.futures import ThreadPoolExecutor
 
 ROOT = "/verif/seeded"
 EXTRA = {"C01": ["C07"], "C02": ["C05"], "C03": ["C12"], "C05": ["C02"], "C06": ["C01"], "C07": ["C02"], "C09": ["C02"],
-         "C11": ["C03"], "C12": ["C03"], "C13": ["C15"], "C15": ["C13"], "C16": ["C11"], "C17": [], "C19": ["C05"]}
+         "C11": ["C03"], "C12": ["C03"], "C13": ["C15"], "C14": ["C13"], "C15": ["C13"], "C16": ["C11"], "C17": [], "C19": ["C05"]}
 
 
 def one(sid):
